@@ -93,6 +93,9 @@ def body_dist(case):
     sv = Sys(case["system"])
     rel = case["relative"]
     B = np.array([r["b"] for r in case["rows"]], dtype=float)
+    int_targets = int(abs(float(np.sum(B))) * 1e6) % 5 == 0
+    if int_targets:
+        B = np.round(B * 40.0)                      # whole-number targets (counts), handed over as an integer-typed array below
     neutral = np.ones(sv.m) if case["neutral"] is None else np.asarray(case["neutral"], dtype=float)
     chat = neutral / neutral.sum()
     Ph = gamut_vertices(sv, rel)
@@ -112,9 +115,13 @@ def body_dist(case):
             # both scalings, the intensity one first (as in the documented work flow): queries do not change the registered system
             with unchanged("dist", estimator=est):
                 getattr(est, _name(B, "l1_scaling"))(B, relative=rel)
-                out = getattr(est, _name(B, "dist_scaling"))(B, neutral_point=(None if case["neutral"] is None else neutral), relative=rel)
-                again = getattr(est, _name(B, "dist_scaling"))(B, neutral_point=(None if case["neutral"] is None else neutral), relative=rel)
+                Barg = B.astype(np.int64) if int_targets else B
+                out = getattr(est, _name(B, "dist_scaling"))(Barg, neutral_point=(None if case["neutral"] is None else neutral), relative=rel)
+                again = getattr(est, _name(B, "dist_scaling"))(Barg, neutral_point=(None if case["neutral"] is None else neutral), relative=rel)
+                as_float = getattr(est, _name(B, "dist_scaling"))(B, neutral_point=(None if case["neutral"] is None else neutral), relative=rel) if int_targets else out
     out = np.asarray(out, dtype=float)
+    check(np.allclose(out, np.asarray(as_float, dtype=float), rtol=1e-12, atol=1e-300, equal_nan=True), "dist:integer-targets-differ",
+          "whole-number targets handed over as an integer-typed array are scaled differently from the same numbers as floats")
     check(np.array_equal(out, np.asarray(again, dtype=float), equal_nan=True), "dist:second-call-differs", "the same call on the same estimator gives another result")
     check(np.array_equal(B, B0), "dist:input-modified", "caller's target array modified")
     check(out.shape == B.shape, "dist:shape", f"{out.shape}")
@@ -129,7 +136,7 @@ def body_dist(case):
         check(np.all(np.abs(big[-B.shape[0]:] - out) <= 1e-9 * (1.0 + np.abs(out))), "dist:depends-on-set-size",
               "targets scaled within a set of 65 573 targets (all others at the neutral chromaticity) differ from the same targets scaled alone")
     check(np.all(np.isfinite(out)), "dist:nonfinite", f"non-finite output {out.tolist()}")
-    labs = sv.labels() + ["relative" if rel else "absolute", "explicit-neutral" if case["neutral"] is not None else "default-neutral", f"regime:{case['regime']}"]
+    labs = sv.labels() + ["relative" if rel else "absolute", "explicit-neutral" if case["neutral"] is not None else "default-neutral", f"regime:{case['regime']}"] + (["int-typed-targets"] if int_targets else [])
     zero = np.all(B == 0, axis=1)
     nz = ~zero
     check(np.all(out[zero] == 0), "dist:zero-row-changed", "an all-zero target row did not stay zero")
